@@ -14,7 +14,7 @@ func genC32(tier string) (map[string]string, error) {
 //verif:dump common
 //verif:dump values
 //verif:assume a harness gauge (a context value whose MeterMemory sums the BigInt amounts; all other context methods are absent) observes what the real operation meters; result size = 8 * word length of the result
-//verif:assume UInt + - * / % : operands < 2^512 with symbolic word lengths; UInt and sized-type bitwise/shift operations: operands <= 2 words (sized types: full width), shift amounts < 256
+//verif:assume UInt + - * / % : operands < 2^512 with symbolic word lengths; UInt and sized-type bitwise/shift operations: operands <= 2 words (sized types: full width), shift amounts < 256; the shift estimators alone additionally for shift amounts < 2^20 against the exact length formula
 package PKGNAME
 
 import (
@@ -69,6 +69,47 @@ func zzCovers(total uint64, r *big.Int, maxWords int) bool {
 		sb.WriteString("\tzzAssert(\"no-failure\", !out.Panicked)\n\tif !out.Panicked {\n")
 		fmt.Fprintf(&sb, "\t\tzzAssert(\"metered-at-least-result-size\", zzCovers(total, out.Value.(UIntValue).BigInt, %s))\n\t}\n}\n", op.MaxWords)
 	}
+	// shift estimators with large shift amounts (int-mode, no result computed): the result of
+	// a << s has ceil((bitlen(a)+s)/64) words, a >> s at most ceil((max(bitlen(a)-s,0)+1)/64)
+	sb.WriteString(`
+func zzBitLenAbs(x *big.Int, maxBits int) int {
+	n := 0
+	a := new(big.Int).Abs(x)
+	for k := 0; k < maxBits; k++ {
+		n += zzIteInt(a.Cmp(new(big.Int).Lsh(big.NewInt(1), uint(k))) >= 0, 1, 0)
+	}
+	return n
+}
+
+//verif:harness property=C32 mode=int stubs=absbits timeout=120
+func ZZ_C32_Estimator_LeftShift_Large() {
+	A, S := zzNondetBigBits(128), zzNondetBigBits(20)
+	zzAssume(S.Sign() >= 0)
+	zzAssume(A.Sign() != 0)
+	out := zzCatch(func() any { return common.NewBitwiseLeftShiftBigIntMemoryUsage(A, S) })
+	zzAssert("no-failure", !out.Panicked)
+	if !out.Panicked {
+		u := out.Value.(common.MemoryUsage)
+		words := (zzBitLenAbs(A, 128) + int(S.Int64()) + 63) / 64
+		zzAssert("estimate-covers-shifted-length", u.Amount >= uint64(8*words))
+	}
+}
+
+//verif:harness property=C32 mode=int stubs=absbits timeout=120
+func ZZ_C32_Estimator_RightShift_Large() {
+	A, S := zzNondetBigBits(256), zzNondetBigBits(20)
+	zzAssume(S.Sign() >= 0)
+	out := zzCatch(func() any { return common.NewBitwiseRightShiftBigIntMemoryUsage(A, S) })
+	zzAssert("no-failure", !out.Panicked)
+	if !out.Panicked {
+		u := out.Value.(common.MemoryUsage)
+		rem := zzBitLenAbs(A, 256) - int(S.Int64())
+		rem = zzIteInt(rem < 0, 0, rem)
+		words := (rem + 1 + 63) / 64
+		zzAssert("estimate-covers-shifted-length", u.Amount >= uint64(8*words))
+	}
+}
+`)
 	// bitwise and shifts for UInt and the sized big types (bv-mode)
 	type bt struct {
 		Name   string
